@@ -5,6 +5,7 @@
 // (allocation serial numbers); the orchestrator renumbers them by first
 // appearance on both sides before comparing.
 #include "drv_common.h"
+#include <functional>
 
 int main(int argc, char** argv) {
     if (argc < 2) return 2;
@@ -236,6 +237,72 @@ int main(int argc, char** argv) {
                 if (e.second->get_stable_version() != e.first) det = true;
             out << op << " " << s << " n=" << nres << " cov=" << cov << " det=" << (cov ? det : false)
                 << " nvn=" << nv.size() << " put=" << ps;
+        } else if (op == "putinfo") {
+            // putinfo S K V : the property of C12 evaluated on the implementation alone: snapshot every border's
+            // version, put with inserted_node_info, snapshot again, compare the set of changed borders with the report
+            std::string st = unhex(tk()), k = unhex(tk()), v = unhex(tk());
+            tree_instance* ti{};
+            std::map<base_node*, std::uint64_t> before, after;
+            std::map<base_node*, bool> isborder;
+            std::function<void(base_node*, std::map<base_node*, std::uint64_t>&)> snap =
+                    [&](base_node* n, std::map<base_node*, std::uint64_t>& m) {
+                        if (n == nullptr) return;
+                        m[n] = rawv(n->get_version());
+                        if (n->get_version_border()) {
+                            isborder[n] = true;
+                            auto* b = dynamic_cast<border_node*>(n);
+                            permutation perm{b->get_permutation().get_body()};
+                            for (std::size_t r = 0; r < perm.get_cnk(); ++r) {
+                                base_node* nl = b->get_lv_at(perm.get_index_of_rank(r))->get_next_layer();
+                                if (nl != nullptr) snap(nl, m);
+                            }
+                        } else {
+                            isborder[n] = false;
+                            auto* it = dynamic_cast<interior_node*>(n);
+                            for (std::size_t i = 0; i <= it->get_n_keys(); ++i) snap(it->get_child_at(i), m);
+                        }
+                    };
+            bool found = find_storage(st, &ti) == status::OK;
+            if (found) snap(ti->load_root_ptr(), before);
+            inserted_node_info info{nullptr, nullptr};
+            std::pair<char*, std::size_t> g{};
+            bool existed = found && get<char>(st, k, g) == status::OK;
+            status s = put<char>(token, st, k, v.data(), v.size(), static_cast<char**>(nullptr),
+                                 static_cast<value_align_type>(1), false, &info);
+            if (found) snap(ti->load_root_ptr(), after);
+            auto node_of = [&](node_version64* p) -> base_node* {
+                for (auto& kv : after)
+                    if (kv.first->get_version_ptr() == p) return kv.first;
+                return nullptr;
+            };
+            std::size_t changed = 0;
+            bool ok = true;
+            base_node* modn = node_of(info.modified_nvp);
+            base_node* cren = node_of(info.created_nvp);
+            for (auto& kv : before) {
+                if (!isborder[kv.first]) continue;
+                auto it = after.find(kv.first);
+                if (it == after.end()) continue;
+                if (it->second != kv.second) {
+                    ++changed;
+                    if (kv.first != modn) ok = false; // a border changed that was not reported
+                }
+            }
+            // split sibling: a new border with a left neighbour
+            base_node* split_new = nullptr;
+            for (auto& kv : after)
+                if (before.find(kv.first) == before.end() && isborder[kv.first] &&
+                    dynamic_cast<border_node*>(kv.first)->get_prev() != nullptr)
+                    split_new = kv.first;
+            if (existed) {
+                if (changed != 0) ok = false;      // an overwrite changes no node version
+            } else if (s == status::OK) {
+                if (modn == nullptr) ok = false;
+                if (modn != nullptr && before.count(modn) && before[modn] == after[modn]) ok = false; // reported but unchanged
+                if (split_new != cren) ok = false;
+            }
+            out << "putinfo " << s << " existed=" << existed << " changed=" << changed << " split=" << (split_new != nullptr)
+                << " ok=" << ok;
         } else if (op == "dump") {
             std::string st = unhex(tk());
             tree_instance* ti{};
